@@ -31,6 +31,32 @@ pub fn build_raw(m: &Model) -> Result<RawSnap, String> {
     Ok(b.finish())
 }
 
+/// Like `build_raw`, but after `after` items the builder is offered an item
+/// that cannot fit (17000 words under an unused key). It must refuse it and
+/// carry on as if nothing had happened. `Err` also when the probe was accepted.
+pub fn build_raw_with_refusal(m: &Model, after: usize) -> Result<RawSnap, String> {
+    let mut b = RawBuilder::new();
+    let huge = vec![0x5a5a_5a5ai32; 17_000];
+    let mut probe = (0x7ffeu16, 0u16);
+    while m.contains_key(&probe) {
+        probe.1 += 1;
+    }
+    let mut probed = false;
+    for (i, (&(t, id), data)) in m.iter().enumerate() {
+        if i == after {
+            if b.add_item(probe.0, probe.1, &huge).is_ok() {
+                return Err("oversized-item-accepted".into());
+            }
+            probed = true;
+        }
+        b.add_item(t, id, data).map_err(|e| format!("{:?}", e))?;
+    }
+    if !probed && b.add_item(probe.0, probe.1, &huge).is_ok() {
+        return Err("oversized-item-accepted".into());
+    }
+    Ok(b.finish())
+}
+
 pub fn raw_to_model(s: &RawSnap) -> Model {
     s.items().map(|i| ((i.raw_type_id, i.id), i.data.to_vec())).collect()
 }
